@@ -1031,6 +1031,21 @@ static void Regress()
      if (!MiniIn(doc, got, why) || got != want) Fail("witness|mini-gateway-reads-documented-frame", why); got.clear();
      if (!MicroIn(doc, got, why) || got != want) Fail("witness|micro-gateway-reads-documented-frame", why);
      vh::distinct(vh::fnvs(doc), true); vh::stat("documented_frame_checked"); }
+   vh::begin_case(5);   // a numeric field whose ring buffer has WRAPPED (sliding window: remove first, append) must flatten in logical order
+   { caseBad = false; Scr s; s.what = 5; MessageRef m = GetMessageFromPool(5); int wrappedSeen = 0;
+     for (int i = 0; i < 16; i++) {   // 16 fields with 64..79 slides: wherever the ring's capacity lies, several of them end up wrapped
+        Fld f; f.name = vh::fmt("w%d", i); f.type = (i & 1) ? B_INT32_TYPE : B_DOUBLE_TYPE; const String n(f.name.c_str());
+        for (int k = 0; k < 6; k++) { if (i & 1) { f.iv.push_back(100 * i + k); CKR(m()->AddInt32(n, -1), "AddInt32"); } else { f.bits.push_back(DB(100.0 * i + k)); CKR(m()->AddDouble(n, -1.0), "AddDouble"); } }
+        for (int sl = 0; sl < 64 + i; sl++) { if (i & 1) CKR(m()->AddInt32(n, -2), "AddInt32"); else CKR(m()->AddDouble(n, -2.0), "AddDouble"); CKR(m()->RemoveData(n, 0), "RemoveData"); }
+        for (int k = 0; k < 6; k++) { if (i & 1) CKR(m()->AddInt32(n, 100 * i + k), "AddInt32"); else CKR(m()->AddDouble(n, 100.0 * i + k), "AddDouble"); CKR(m()->RemoveData(n, 0), "RemoveData"); }
+        s.f.push_back(f);
+        const void * p0 = NULL; const void * p5 = NULL; uint32 nb = 0; if (m()->FindData(n, f.type, 0, &p0, &nb).IsOK() && m()->FindData(n, f.type, 5, &p5, &nb).IsOK() && (const char *)p5 < (const char *)p0) wrappedSeen++;
+     }
+     curJson.clear(); Json(s, curJson); std::string why; const std::string bc = FlatCpp(*m()); curCppHex = vh::hex(bc.data(), bc.size(), 300);
+     MMessage * mm = BuildMM(s); const std::string bm = FlatMM(mm); MMFreeMessage(mm);
+     if (!CheckCpp(*m(), s, why)) Fail("witness|wrapped-ring-field-content", why);
+     else if (bc != bm) Fail("witness|wrapped-ring-field-bytes", DiffText("documented (mini codec, built from the script)", bm, "c++ after sliding-window construction", bc));
+     vh::distinct(vh::fnvs(bc), true); vh::stat("wrapped_ring_fields_in_witness", wrappedSeen); }
 }
 
 
